@@ -188,8 +188,10 @@ def check_pretty(msg, text):
         return [("pretty:no-trailing-newline", {})]
     lines = lines[:-1]
     viol = []
-    want0 = "%s -> /%s" % (msg["task_uuid"], "/".join(str(x) for x in msg["task_level"]))
-    if not lines or lines[0] != want0:
+    level = "/" + "/".join(str(x) for x in msg["task_level"])
+    want0 = "%s ... %s" % (msg["task_uuid"], level)
+    # the statement fixes what the header starts with (uuid, then level), not the separator
+    if not lines or not lines[0].startswith(msg["task_uuid"]) or not lines[0].endswith(level) or "\n" in lines[0]:
         return [("pretty:header", {"got": lines[:1], "want": want0})]
     e = check_timestamp(lines[1] if len(lines) > 1 else "", msg["timestamp"])
     if e:
@@ -244,10 +246,11 @@ def _strings(v):
 def check_compact(msg, text):
     if "\n" in text:
         return [("compact:not-a-single-line", {"text": text[:200]})]
-    head = "%s/%s " % (msg["task_uuid"], "/".join(str(x) for x in msg["task_level"]))
-    if not text.startswith(head):
-        return [("compact:header", {"got": text[:80], "want": head})]
-    rest = text[len(head):]
+    level = "/" + "/".join(str(x) for x in msg["task_level"])
+    m = re.match(re.escape(msg["task_uuid"]) + r"\W{0,4}?" + re.escape(level) + r" ", text)
+    if not m:
+        return [("compact:header", {"got": text[:80], "want": msg["task_uuid"] + level + " "})]
+    rest = text[m.end():]
     ts, _, rest = rest.partition(" ")
     e = check_timestamp(ts, msg["timestamp"])
     if e:
